@@ -193,11 +193,11 @@ def check_flushed_ghost(ctx, ex, paths, env, ob, role):
         ctx.candidate(ob, role, f'{ob.id}: {bad[0][1]}', confirm=lambda: native_selfcompare(ctx, filtered_newest_programs()))
 
 
-def check_sealed(ctx):
-    shape = ((1, 0), (0, 1)) if ctx.tier == 'quick' else ((2, 0), (0, 1))
+def check_sealed(ctx, confirm=None, shape=None, tag=''):
+    shape = shape or (((1, 0), (0, 1)) if ctx.tier == 'quick' else ((2, 0), (0, 1)))
     fns = ['recovery::recover_sealed_memtables']
-    o1 = ctx.ob('sealed/apply-rule', 'recover_sealed_memtables: same apply rule, order and completeness for a sealed journal', fns)
-    o2 = ctx.ob('sealed/memtables', 'recover_sealed_memtables: a keyspace\'s recovered memtable is sealed iff data was applied to it; the journal is re-registered with a watermark '
+    o1 = ctx.ob('sealed/apply-rule' + tag, 'recover_sealed_memtables: same apply rule, order and completeness for a sealed journal', fns)
+    o2 = ctx.ob('sealed/memtables' + tag, 'recover_sealed_memtables: a keyspace\'s recovered memtable is sealed iff data was applied to it; the journal is re-registered with a watermark '
                 'for exactly those keyspaces, carrying the highest applied seqno', fns)
     try:
         ex, paths, env = recov.run_recover(ctx, n_ks=2, shape=(), sealed_shape=shape, symbolic_kinds=True)
@@ -260,17 +260,17 @@ def check_sealed(ctx):
                     mx = z3.If(z3.UGE(mx, s_), mx, s_)
                 if ctx.sat(p.pc + [got[nm] != mx], o2)[0] != z3.unsat:
                     b2.append((p, f'the watermark of keyspace {nm} can differ from the highest seqno replayed into it')); break
-    finish(ctx, o1, b1, 'recover-sealed/replay-rule')
-    finish(ctx, o2, b2, 'recover-sealed/memtable-or-watermark')
+    finish(ctx, o1, b1, 'recover-sealed/replay-rule', confirm)
+    finish(ctx, o2, b2, 'recover-sealed/memtable-or-watermark', confirm)
 
 
-def finish(ctx, ob, bad, role):
+def finish(ctx, ob, bad, role, confirm=None):
     if ob.reach == 0:
         ob.status = 'undecided'; ob.detail = ob.detail or 'vacuous'
     elif not bad:
         ob.status = 'discharged'; ob.sample = {'ok_paths': ob.reach}
     else:
-        ctx.candidate(ob, role, f'{ob.id}: {bad[0][1]}', confirm=lambda: native_reopen(ctx))
+        ctx.candidate(ob, role, f'{ob.id}: {bad[0][1]}', confirm=confirm or (lambda: native_reopen(ctx)))
 
 
 # ------------------------------------------------------------------ native
